@@ -157,7 +157,13 @@ Definition update_positioning (t : tracker) (c : creator) (w : Z) : tracker :=
   | Some off =>
       let p := (fst (tk_default t), snd (tk_default t) + off) in
       if has_break_before (cr_nodes c) then t else tracker_update t p
-  | None => match pac_pos w with Some p => tracker_update t p | None => t end
+  | None =>
+      match pac_pos w with
+      | Some p =>
+          (* the first preamble address code of an empty memory resets the tracker (second part of fix #22) *)
+          tracker_update (match cr_nodes c with [] => tracker_reset t | _ => t end) p
+      | None => t
+      end
   end.
 
 Definition is_punct_hi (b : Z) : bool := (b =? 174) || (b =? 161) || (b =? 191) || (b =? 44).   (* ae a1 bf 2c *)
@@ -302,13 +308,18 @@ Fixpoint remove_off_on (l : list inode) (pending : option inode) : list inode :=
 
 Definition rstrip_node (n : inode) : inode := mkI (i_kind n) (rstrip (i_text n)) (i_pos n).
 
-(* text node directly before a BREAK, and the last node if it is a text node, lose trailing whitespace *)
+(* _remove_spaces_at_end_of_the_line: the text node in front of a BREAK, of a REPOSITION or of the end of the list loses
+   its trailing whitespace, also when italics nodes stand in between (each text node looks at the next node that is not
+   an italics node) *)
+Fixpoint next_plain_is_sep (l : list inode) : bool :=
+  match l with
+  | [] => true
+  | m :: t => if is_on m || is_off m then next_plain_is_sep t else is_break m || is_repos m
+  end.
 Fixpoint strip_line_ends (l : list inode) : list inode :=
   match l with
   | [] => []
-  | [n] => if is_text n then [rstrip_node n] else [n]
-  | n :: ((m :: _) as t) =>
-      (if is_text n && is_break m then rstrip_node n else n) :: strip_line_ends t
+  | n :: t => (if is_text n && next_plain_is_sep t then rstrip_node n else n) :: strip_line_ends t
   end.
 
 Definition format_italics (l : list inode) : list inode :=
@@ -476,8 +487,9 @@ Definition last_contains (l : lastcmd) (w : Z) : bool :=
 Definition handle_double (s : rstate) (w : Z) : bool * rstate :=
   let isspecial := match special_of w with Some _ => true | None => false end in
   let isext := match extended_of w with Some _ => true | None => false end in
-  let doubled := (negb (w =? w_bs) && is_command w) || is_pac w || isspecial
-                 || (r_dstart s && (isext || (w =? w_bs))) in
+  (* every repeated control code pair counts once (backspace is a command); double_starter is still maintained by the
+     code but no longer consulted *)
+  let doubled := is_command w || is_pac w || isspecial || isext in
   let ds := if is_cue_start w && negb (last_is (r_last s) w) then false else r_dstart s in
   if doubled && last_is (r_last s) w then
     (true, set_dbl s LNone (if is_cue_start w then true else ds))
